@@ -466,6 +466,67 @@ FuzzClause(m, ev) ==
   ELSE IF ev.outcome = "obj" /\ ev.isq /\ ~ValidTP(m, ev.q) THEN "returned-invalid-time-point"
   ELSE "ok"
 
+\* ---------------------------------------------------------------------- C10: durations and text
+\* generated text -> parse: ev.gd (generation record), text, ok, q (projection), text2 = str(q), q2 = parse(text2)
+\* alternative spelling: ev.alt (TPText-style record read literally), its parse qa must equal the designator parse
+DurNearTol(x, e, tol) == x.y = e.y /\ x.mo = e.mo /\ Near3(x.len, e.len, tol)
+DurParseClause(ev) ==
+  LET e == DurTextValue(ev.gd)
+      \* a decimal of an hour is known to 1 micro-hour = 3600 us; of a minute 60 us; of a second 1 us (+1 for a 7th digit)
+      tol == IF Len(ev.gd.ds) = 0 THEN 0 ELSE CASE LastUnit(ev.gd) = "h" -> 3700 [] LastUnit(ev.gd) = "mi" -> 62 [] OTHER -> 2
+  IN
+  IF ev.text # DurText(ev.gd) THEN "harness-render-mismatch"
+  ELSE IF ~ev.ok THEN "refused-" \o ev.cls
+  ELSE IF ~DurNearTol(ev.q, e, tol) THEN "parsed-value-differs-from-designators"
+  ELSE IF ev.q.wk # ev.gd.wk /\ ~(ev.gd.wk /\ ev.gd.w = 0) THEN "weeks-form-lost"
+  ELSE IF ~ev.eq2 THEN "parse(str(d))#d"
+  ELSE IF ev.text3 # ev.text2 THEN "str-not-a-fixpoint"
+  ELSE "ok"
+DurObjClause(ev) ==
+  IF ~ev.ok THEN "raised-" \o ev.cls
+  ELSE IF ~ev.eq THEN "parse(str(d))#d"
+  ELSE IF ~DurNearTol(ev.q, ev.d, IF ev.d.frac THEN 2 ELSE 0) THEN "parsed-value-differs"
+  ELSE IF ev.text2 # ev.text THEN "str-not-a-fixpoint"
+  ELSE "ok"
+DurAltClause(ev) ==
+  IF ~ev.ok THEN "raised-" \o ev.cls
+  ELSE IF ~ev.eq THEN "alternative-spelling-differs-from-designators"
+  ELSE IF ~DurNearTol(ev.qa, ev.qd, 0) THEN "alternative-spelling-value"
+  ELSE "ok"
+
+\* ---------------------------------------------------------------------- C17: strftime / strptime
+StrfClause(m, ev) ==
+  LET bad == HasTok(ev.toks, {"bad"}) IN
+  IF ~ValidTP(m, ev.p) THEN "operand-invalid"
+  ELSE IF bad THEN (IF ev.ok THEN "unsupported-directive-rendered" ELSE IF ~ev.ve THEN "refused-with-" \o ev.cls ELSE "ok")
+  ELSE IF ~ev.ok THEN "raised-" \o ev.cls
+  ELSE IF HasTok(ev.toks, {"s"}) THEN
+       \* %s alone: the Unix time of the instant, as day/second pair parsed from the digits by the harness
+       LET x == Minus3(Inst(m, ev.p), EpochInst(m)) IN
+       IF ~ev.isint THEN "%s-not-an-integer" ELSE IF <<ev.sd, ev.ss>> # <<x[1], x[2]>> THEN "%s" ELSE "ok"
+  ELSE IF ev.text # StrfText(m, ev.p, ev.toks, 1) THEN "text-differs-from-POSIX"
+  ELSE "ok"
+\* strptime of the text strftime produced, with the same format; parser assumed zone (azh, azm)
+StrpClause(m, ev) ==
+  LET p == ev.p  q == ev.q  t == ev.toks
+      c == CivilDate(m, p)  o == OrdOf(m, LocalDay(m, p))
+      hasY == HasTok(t, {"Y", "F"})  hasM == HasTok(t, {"m", "F"})  hasD == HasTok(t, {"d", "F"})  hasJ == HasTok(t, {"j"})
+      hasH == HasTok(t, {"H", "X"})  hasMi == HasTok(t, {"M", "X"})  hasS == HasTok(t, {"S", "X"})  hasZ == HasTok(t, {"z"})
+      eh == IF hasH THEN p.sod \div 3600 ELSE 0
+      em == IF hasMi THEN (p.sod % 3600) \div 60 ELSE 0
+      es == IF hasS THEN p.sod % 60 ELSE 0
+  IN
+  IF ~ev.ok THEN "raised-" \o ev.cls
+  ELSE IF ~ValidTP(m, q) THEN "result-invalid"
+  ELSE IF HasTok(t, {"s"}) THEN (IF Inst(m, q) = Inst(m, p) THEN "ok" ELSE "%s-does-not-invert")
+  ELSE IF hasJ /\ ~(q.rep = "ord" /\ q.y = c[1] /\ q.a = o[2]) THEN "date-from-%j"
+  ELSE IF ~hasJ /\ ~(q.rep = "cal" /\ q.y = c[1] /\ q.a = (IF hasM THEN c[2] ELSE 1) /\ q.b = (IF hasD THEN c[3] ELSE 1)) THEN "date"
+  ELSE IF q.sod # eh * 3600 + em * 60 + es \/ q.us # 0 THEN "time-of-day"
+  ELSE IF hasZ /\ ~SameZone(p, q) THEN "offset"
+  ELSE IF ~hasZ /\ ~(q.zh = ev.azh /\ q.zm = ev.azm) THEN "assumed-offset"
+  ELSE IF hasY /\ (hasJ \/ (hasM /\ hasD)) /\ hasH /\ hasMi /\ hasS /\ hasZ /\ ~(Inst(m, q) = Inst(m, p) /\ ev.eq) THEN "not-equal-to-original"
+  ELSE "ok"
+
 \* ---------------------------------------------------------------------- the step relation
 Clause(ev) ==
   CASE ev.op = "Begin"    -> "ok"
@@ -502,6 +563,11 @@ Clause(ev) ==
     [] ev.op = "DumpTrip" -> DumpTripClause(mode, ev)
     [] ev.op = "Ctor"     -> CtorClause(mode, ev)
     [] ev.op = "Fuzz"     -> FuzzClause(mode, ev)
+    [] ev.op = "DurParse" -> DurParseClause(ev)
+    [] ev.op = "DurObj"   -> DurObjClause(ev)
+    [] ev.op = "DurAlt"   -> DurAltClause(ev)
+    [] ev.op = "Strf"     -> StrfClause(mode, ev)
+    [] ev.op = "Strp"     -> StrpClause(mode, ev)
     [] ev.op = "Raised"   -> "raised-" \o ev.cls
     [] OTHER -> "unknown-event-kind"
 
